@@ -26,6 +26,9 @@ pub struct PoolIndex {
     /// (evaluator, token) -> non-panicking entries whose text uses that function / operator: a run can
     /// concentrate on one of them, so that concurrent calls exercise the same code with different arguments
     pub fn_buckets: Vec<(u8, String, Vec<u32>)>,
+    /// per function bucket: the entries using that function on which the library panics (a themed run mixes some in:
+    /// one call of a function panicking while another call of the same function is in flight)
+    pub fn_bucket_panics: Vec<Vec<u32>>,
     /// indices into fn_buckets that the change under test touches (from `git diff` against the hook commit)
     pub hint_buckets: Vec<usize>,
     /// evaluators the change under test touches
@@ -93,20 +96,27 @@ pub fn index_pool(pool: &mut Pool) -> PoolIndex {
     {
         use std::collections::BTreeMap;
         let mut fb: BTreeMap<(u8, usize), Vec<u32>> = BTreeMap::new();
+        let mut fbp: BTreeMap<(u8, usize), Vec<u32>> = BTreeMap::new();
         for (i, e) in pool.entries.iter().enumerate() {
-            if matches!(e.oracle, Outcome::Panic(_)) || e.ticks > 200_000 {
+            if e.ticks > 600_000 {
                 continue;
             }
+            let panics = matches!(e.oracle, Outcome::Panic(_));
             let stripped: String = e.call.expr.split_whitespace().collect();
             for (t, tok) in FN_TOKENS.iter().enumerate() {
                 if uses_token(&stripped, tok) {
-                    fb.entry((e.call.ev as u8, t)).or_default().push(i as u32);
+                    if panics {
+                        fbp.entry((e.call.ev as u8, t)).or_default().push(i as u32);
+                    } else {
+                        fb.entry((e.call.ev as u8, t)).or_default().push(i as u32);
+                    }
                 }
             }
         }
         for ((ev, t), v) in fb {
             if v.len() >= 2 {
                 ix.fn_buckets.push((ev, FN_TOKENS[t].to_string(), v));
+                ix.fn_bucket_panics.push(fbp.remove(&(ev, t)).unwrap_or_default());
             }
         }
     }
@@ -348,7 +358,12 @@ pub fn make_spec(pool: &Pool, ix: &PoolIndex, seed: u64, kind: RunKind, allow_in
             }
             if let Some(b) = bucket {
                 if r.chance(0.75) {
-                    calls.push(*r.pick(&ix.fn_buckets[b].2));
+                    let pan = &ix.fn_bucket_panics[b];
+                    if !pan.is_empty() && r.chance(0.12) {
+                        calls.push(*r.pick(pan));
+                    } else {
+                        calls.push(*r.pick(&ix.fn_buckets[b].2));
+                    }
                     continue;
                 }
             }
